@@ -1467,6 +1467,8 @@ def run_check(ck, which: str) -> None:  # noqa: C901, PLR0912, PLR0915
     for ops in all_container_histories(ex_len):
         if ex_len == 3 and len(ops) == 10 and rng.random() > 0.12:
             continue
+        if ex_len == 2 and len(ops) == 9 and rng.random() > 0.5:
+            continue            # quick tier: every single op, a seeded half of the op x op pairs (thorough: all pairs)
         hists.append(run_history(ops)["steps"])
         tags.append("exhaustive")
         n_ex += 1
